@@ -219,6 +219,10 @@ def _job_wrapper(a):
     except GarbageUse as e:
         res.obs.append(Ob('%s%r: no index or address is computed from heap storage the program never wrote (operator new / malloc return arbitrary bytes)' % (fn.__name__, tuple(args)), 'violated', key='uninitialised-heap-use',
                           detail=str(e), cex={'replay': 'structural', 'what': str(e)}))
+    except MemError as e:
+        # the executor's allocation table located an access of the real code outside the objects it owns (or a division by zero) in this job's scenario: a finding, not a machinery error
+        res.obs.append(Ob('%s%r: every load and store of the real code stays inside an object it owns (allocation table of the snapshot and of the run)' % (fn.__name__, tuple(args)), 'violated', key='memory-safety',
+                          detail=str(e)[:300], cex={'replay': 'structural', 'what': str(e)[:300]}))
     except NativeCrash as e:
         # not a machinery error: the real code, linked into the harness and driven with the harness' (legal) scenario, crashed natively
         res.obs.append(Ob('%s%r: the real code runs the scenario natively (world construction and reference calls of the harness) without dying of a signal' % (fn.__name__, tuple(args)), 'violated', key='native-crash',
